@@ -6,7 +6,7 @@ From Coq Require Import ZArith List Bool Lia.
 Import ListNotations.
 Require Import Base.Py Base.ZList Model.Crc Model.Ogg
   Proofs.C15_lacing Proofs.C15_page Proofs.C15_unpage Proofs.C15_paging Proofs.C15_from_packets
-  Proofs.C15_refuted Proofs.C15_file Proofs.C15_slot Proofs.C15_replace.
+  Proofs.C15_refuted Proofs.C15_file Proofs.C15_slot Proofs.C15_replace Proofs.C15_preserve.
 Require Import Base.FileModel Gen.Gen_util Proofs.FileLemmas.
 Open Scope Z_scope.
 
@@ -181,6 +181,29 @@ Theorem C15_replace_stream_view : forall (a : run_t) on Gn news,
 Proof. exact replace_stream_view. Qed.
 Print Assumptions C15_replace_stream_view.
 
+(* (e) _from_packets_try_preserve, the paging entry point of the format writers.  `olds` is any page run that to_packets
+   accepts (lax mode: it may start inside a packet).  If the new packets have the old packets' lengths, the pages
+   returned have the old layout page by page (sequence, continued, complete, position, per-page packet lengths; serial 0,
+   no first/last flag) and reassemble to exactly the packets given; otherwise the call IS
+   from_packets(packets, old_pages[0].sequence) with the default page parameters, to which (b), (c1), (c2) apply *)
+Theorem C15_try_preserve_same : forall packets olds oldp,
+  to_packets false olds = Ok oldp -> map (@zlen Z) packets = map (@zlen Z) oldp ->
+  exists news, from_packets_try_preserve packets olds = Ok news /\ Forall2 same_layout news olds /\
+               to_packets false news = Ok packets.
+Proof. exact try_preserve_same. Qed.
+Print Assumptions C15_try_preserve_same.
+Theorem C15_try_preserve_fallback : forall packets olds oldp,
+  to_packets false olds = Ok oldp -> map (@zlen Z) packets <> map (@zlen Z) oldp ->
+  exists o r, olds = o :: r /\ from_packets_try_preserve packets olds = from_packets 4096 2048 packets (p_sequence o).
+Proof. exact try_preserve_fallback. Qed.
+Print Assumptions C15_try_preserve_fallback.
+(* in every relation of the new packets to the old run: same packets out *)
+Theorem C15_try_preserve_roundtrip : forall packets olds oldp,
+  to_packets false olds = Ok oldp -> packets <> [] ->
+  exists news, from_packets_try_preserve packets olds = Ok news /\ to_packets false news = Ok packets.
+Proof. exact try_preserve_roundtrip. Qed.
+Print Assumptions C15_try_preserve_roundtrip.
+
 (* non-vacuity *)
 Example C15_ex_page_wf :
   page_wf (mkPage 0 5 (-1) 4294967295 7 false [[1; 2]; repeat 3 510]) /\
@@ -203,3 +226,12 @@ Example C15_ex_replace :
           [(0, mk 7 3 [1]); (58, mk 7 4 [3])] [mk 0 0 [6; 6]] =
   (Ok tt, render_all [mk 7 3 [6; 6]; mk 9 0 [2]; mk 9 1 [4]; mk 7 4 [5]]).
 Proof. vm_compute. reflexivity. Qed.
+(* old packets of 100 and 200 bytes on two pages, new packets of 150 and 150 bytes (same count, same total): the layout is
+   NOT copied, the new packets come back; with the old lengths the two-page layout is kept *)
+Example C15_ex_try_preserve :
+  let olds := [mkPage 0 0 0 0 7 true [repeat 1 100]; mkPage 0 0 9 0 8 true [repeat 2 200]] in
+  rmap (map (fun p => (p_sequence p, p_position p, map (@zlen Z) (p_packets p))))
+       (from_packets_try_preserve [repeat 3 150; repeat 4 150] olds) = Ok [(7, 0, [150; 150])] /\
+  rmap (map (fun p => (p_sequence p, p_position p, p_packets p)))
+       (from_packets_try_preserve [repeat 3 100; repeat 4 200] olds) = Ok [(7, 0, [repeat 3 100]); (8, 9, [repeat 4 200])].
+Proof. vm_compute. split; reflexivity. Qed.
